@@ -327,6 +327,13 @@ def run(ctx):
                 ctx.unknown("C15.helpers", f_.ident, loc_of(f_, c_), f"from_dlpack({src_txt[:40]}): the library of the source array is not established by the enclosing tests", disc=f"dlpack|{n_dl}")
     ctx.count("dlpack_hand_overs", n_dl)
 
+    # ---- samplers do not write in place into arrays they were handed: a proposal output converted without a copy can be a read-only view of a buffer
+    #      of another library (NumPy view of a JAX array), which an in-place update cannot modify
+    from ..report import reuse as _reuse
+    from . import c10 as _c10
+    _reuse(ctx, lambda c: _c10.own_rule(c, only_module="aspire.samplers"), ("C10.own",), "C15own",
+           "ownership rule shared with C10: update_at_indices assigns in place and only falls back for TypeError; a NumPy view of a JAX proposal output is read-only and raises ValueError, "
+           "so that back end / namespace pair can no longer be consumed")
     # ---- output namespace option
     A = repo.cls("aspire.aspire:Aspire")
     sp = A.methods["sample_posterior"]
@@ -547,6 +554,8 @@ MUTANTS = [
     M("array_to_namespace into numpy always", _S, "x = asarray(x, self.xp, **kwargs)", "x = asarray(x, np, **kwargs)", "C15.a2n"),
 ]
 MUTANTS += [
+    M("importance sampler patches the proposal density in place", "src/aspire/samplers/importance.py", "samples.log_prior = samples.array_to_namespace(", "samples.log_q = update_at_indices(samples.log_q, samples.xp.isnan(samples.log_q), samples.xp.inf)\n        samples.log_prior = samples.array_to_namespace(", "C15own.own",
+      more=[("from ..utils import track_calls", "from ..utils import track_calls, update_at_indices")]),
     M("from_samples defaults the requested dtype to the source set's dtype object", _S, "dtype = kwargs.pop(\"dtype\", None)\n        if dtype is not None:\n            dtype = resolve_dtype(dtype, xp)", "dtype = kwargs.pop(\"dtype\", samples.dtype)\n        if dtype is not None:\n            dtype = resolve_dtype(dtype, xp)", "C15.dtype"),
     M("torch to JAX hand-over through DLPack without making the tensor contiguous", "src/aspire/utils.py", "if dtype is not None:\n        kwargs[\"dtype\"] = resolve_dtype(dtype, xp=xp)\n    return xp.asarray(x, **kwargs)",
       "if is_torch_array(x) and is_jax_namespace(xp) and not kwargs:\n        array = xp.from_dlpack(x.detach())\n        if dtype is not None:\n            array = array.astype(resolve_dtype(dtype, xp=xp))\n        return array\n    if dtype is not None:\n        kwargs[\"dtype\"] = resolve_dtype(dtype, xp=xp)\n    return xp.asarray(x, **kwargs)", "C15.helpers"),
